@@ -42,15 +42,31 @@ def classify(ctx: HandlerContext) -> Classification:
 
         # -S STRING / --split-string=STRING: env splits STRING into the command to run
         split_string = None
-        if token in ("-S", "--split-string"):
+        if token == "--split-string":
             split_string = tokens[i + 1] if i + 1 < len(tokens) else ""
             rest = tokens[i + 2 :]
         elif token.startswith("--split-string="):
             split_string = token[len("--split-string=") :]
             rest = tokens[i + 1 :]
-        elif token.startswith("-S") and len(token) > 2:
-            split_string = token[2:]
-            rest = tokens[i + 1 :]
+        elif token.startswith("-") and not token.startswith("--"):
+            # Short options may be combined (-vu NAME, -iC DIR, -vS 'cmd'): the first one that
+            # takes a value ends the cluster, its value is the rest of the word or the next word
+            k = next(
+                (k for k in range(1, len(token)) if "-" + token[k] in FLAGS_WITH_ARG),
+                None,
+            )
+            if k is not None:
+                attached = token[k + 1 :]
+                if token[k] == "S":
+                    if attached:
+                        split_string = attached
+                        rest = tokens[i + 1 :]
+                    else:
+                        split_string = tokens[i + 1] if i + 1 < len(tokens) else ""
+                        rest = tokens[i + 2 :]
+                else:
+                    i += 1 if attached else 2
+                    continue
         if split_string is not None:
             inner_cmd = " ".join([split_string] + ([bash_join(rest)] if rest else []))
             if not inner_cmd.strip():
